@@ -816,6 +816,20 @@ pub fn run(ctx: &Ctx) -> Report {
             }
         }
     }
+    // a peer with a window of nearly 4 GiB that lags by 2^31 bytes or more (no counter wrap
+    // involved): its packets must not make the driver forget what is in flight
+    for before in [8u32, 9, 12] {
+        for alloc in [0u32, 5] {
+            let mut ops = vec![WOp::Credit { alloc, consume: 0 }];
+            ops.extend((0..before).map(|_| WOp::Send(BIG as u32 - 1)));
+            ops.push(WOp::Credit { alloc, consume: 0 });
+            ops.push(WOp::Observe);
+            ops.extend((before..17).map(|_| WOp::Send(BIG as u32 - 1)));
+            ops.push(WOp::Credit { alloc, consume: 30000 });
+            ops.extend((0..4).map(|_| WOp::Send(BIG as u32 - 1)));
+            items.push(Item::Wrap(WCase { ops }));
+        }
+    }
     let (st, mut failure) = run_items(ctx, "items", items, |it: &Item, st| match it {
         Item::Wrap(w) => check_wrap(w, st, &known),
     });
